@@ -65,8 +65,8 @@ Inductive pyfun :=
 | PGetattr | PGetitem | PLt | PLe | PEq | PNe | PGt | PGe | PTruth | PLen | PContains
 | PAdd | PSub | PMul | PMatmul | PTruediv | PFloordiv | PMod | PPow | PAnd | PXor | POr
 | PNeg | PPos | PAbs | PInvert | PInt | PFloat | PRound | PSliceCtor
-| PChildAccess.   (* what {}[key] followed by difflib.get_close_matches(key, []) raises: a composite's
-                     child lookup by a key that names no child *)
+| PChildAccess.   (* what a composite's child lookup raises for a key that names no child: {}[key] with its
+                     KeyError turned into AttributeError (TypeError if the key is unhashable) *)
 
 Definition pyname (f : pyfun) : string :=
   match f with
@@ -642,7 +642,7 @@ Section Model.
                           | inr x => (st, ERaise x, [])
                           | inl _ => (st, ESkip, [])
                           end
-          | _ => (st, ESkip, [])
+          | _ => (st, ERaise "AttributeError", [])   (* a node or channel as key: hashable, no such child *)
           end
         else match rr with
         | ResChan self =>
@@ -672,7 +672,16 @@ Section Model.
         let rr := resolve st results recv in
         let ro := map (resolve st results) [a; b; c] in
         if is_missing rr || existsb is_missing ro then (st, ESkip, [])
-        else if is_comp recv then (st, ERaise "TypeError", [])   (* child lookup by a slice object *)
+        else if is_comp recv then
+          (* child lookup by a slice object: hashable iff its members are *)
+          (st, ERaise (if existsb (fun r => match r with
+                                            | ResRaw v => match pyop PChildAccess [v] with
+                                                          | inr "TypeError" => true
+                                                          | _ => false
+                                                          end
+                                            | _ => false
+                                            end) ro
+                       then "TypeError" else "AttributeError"), [])
         else match rr with
         | ResChan self =>
             if negb (existsb is_chanlike ro) then
